@@ -50,6 +50,20 @@ type FuncContract struct {
 	Line     int
 	Used     bool
 	Reads    []string
+	NoReads  []*NoReadsClause
+}
+
+// NoReadsClause: `noreads pkg.Type.field, ... [except funcKey, ...]` — neither the function nor anything it calls (except the
+// listed functions) loads the listed fields. Decided by the generator's static read-set walk over the SSA, not by the solver.
+type NoReadsClause struct {
+	Keys   []string // heap keys H_pkg.Type_field
+	Fields []string
+	Except map[string]bool
+	Text   string
+	Tags   []string
+	Label  string
+	File   string
+	Line   int
 }
 
 type SpecFunc struct {
@@ -95,7 +109,7 @@ func NewContractSet() *ContractSet {
 	return &ContractSet{Funcs: map[string]*FuncContract{}, Specs: map[string]*SpecFunc{}}
 }
 
-var kwRe = regexp.MustCompile(`^(func|requires|ensures|modifies|loop|pure|rec|pred|axiom|lemma|trusted|opaque|global|uninterp|note|cost|reads)\b`)
+var kwRe = regexp.MustCompile(`^(func|requires|ensures|modifies|loop|pure|rec|pred|axiom|lemma|trusted|opaque|global|uninterp|note|cost|reads|noreads)\b`)
 var tagRe = regexp.MustCompile(`\s\[(C[0-9]+[A-Za-z0-9_,\- ]*)\]\s*$`)
 
 type rawClause struct {
@@ -255,6 +269,38 @@ func (cs *ContractSet) LoadFile(path string, goFile bool, pkg string) error {
 			if cur != nil {
 				cur.Reads = append(cur.Reads, rest)
 			}
+		case "noreads":
+			if cur == nil {
+				return errf(rc, "noreads outside func")
+			}
+			text, tags, label := splitTags(rest)
+			nr := &NoReadsClause{Except: map[string]bool{}, Text: text, Tags: tags, Label: label, File: rc.file, Line: rc.line}
+			lhs, rhs := text, ""
+			if i := strings.Index(text, " except "); i >= 0 {
+				lhs, rhs = text[:i], text[i+len(" except "):]
+			}
+			for _, f := range strings.Split(lhs, ",") {
+				f = strings.TrimSpace(f)
+				if f == "" {
+					continue
+				}
+				i := strings.LastIndex(f, ".")
+				if i < 0 {
+					return errf(rc, "noreads: expected pkg.Type.field, got %q", f)
+				}
+				nr.Fields = append(nr.Fields, f)
+				nr.Keys = append(nr.Keys, "H_"+f[:i]+"_"+f[i+1:])
+			}
+			for _, f := range strings.Split(rhs, ",") {
+				f = strings.TrimSpace(f)
+				if f != "" {
+					if pkg != "" && !strings.Contains(f, pkg+".") {
+						f = qualifyKey(pkg, f)
+					}
+					nr.Except[f] = true
+				}
+			}
+			cur.NoReads = append(cur.NoReads, nr)
 		case "requires", "ensures", "cost":
 			text, tags, label := splitTags(rest)
 			if curSpec != nil && kw == "ensures" {
